@@ -128,7 +128,7 @@ func main() {
 			fs = sel
 		}
 
-		t.Rule("case = (command form, output configuration, variant of the pre-existing output, spelling of the output path); every case is one run of the real binary in a fresh sandbox; all cases are non-trivial (each is judged on exit status, stderr, whole-tree comparison and, with the shadow build, the fs-call log); distinct by that tuple. quick draws ONE path spelling per form from the seed, thorough runs all of them")
+		t.Rule("case = (command form, output configuration, variant of the pre-existing output, spelling of the output path); every case is one run of the real binary in a fresh sandbox; all cases are non-trivial (each is judged on exit status, stderr, whole-tree comparison and, with the shadow build, the fs-call log); distinct by that tuple. quick draws ONE path spelling per form from the seed and two of the four (pre-existing kind, flag position) --force combinations, thorough runs all of them")
 		t.Assume("leaf commands are those reachable through `pdfcpu help`; hidden commands (dump) name no output")
 		t.Assume("merge -m append is defined on an existing output (it extends it) and is driven as an in-place form; every other form, including import, is held to the refusal rule of the property text")
 		t.Assume("output = input without --force: any non-zero exit with an unchanged tree counts as the refusal (the message may name the aliasing instead of the overwrite); output = input with --force may either succeed with a valid file or fail leaving the tree unchanged")
@@ -480,6 +480,9 @@ func (e *env) runForm(fm form, nk string, first bool) {
 	// ---- output present + --force
 	for _, variant := range []string{"garbage", "pdf"} {
 		for _, pos := range []string{"first", "last"} {
+			if t.Quick() && (variant == "garbage") != (pos == "first") {
+				continue // quick: garbage/first and pdf/last; thorough: all four
+			}
 			b := e.newBox(fm)
 			out := outName(nk, fm.json, b.sb)
 			planted := e.plant(b, fm, out, variant, base)
@@ -752,6 +755,9 @@ func (e *env) runDirForm(fm form, nk string) {
 			}
 			if force == "last" && variant == "rerun" {
 				continue
+			}
+			if t.Quick() && force == "first" && variant == "file" {
+				continue // quick: file/last and rerun/first
 			}
 			b := e.newBox(fm)
 			dir, args := argsFor(b)
